@@ -32,3 +32,34 @@ claim("C05", "order-abstraction evaluation of the dirty protocol, dominance/path
       "serialised by a blocking Lock + deferred Unlock; mark and clear share a mutex (violated today: known finding K1, listed in KNOWN_FINDINGS.txt by "
       "obligation key). Two genuine defects found by R1/R5 were repaired in /repo (fix: commits). NOT decided: that a save is eventually scheduled, server "
       "behaviour under timeout.", "DESIGN.md §3 C05, §4")
+
+claim("C03", "call-chain shape rules + exhaustive order-abstraction evaluation of handlers, deliver function, gate and forwarder; SSA tables; type-set agreement",
+      "Decides the structural conditions of complete/ordered/duplicate-free/faithful delivery given gocbcore's per-connection dispatch: one synchronous chain "
+      "(no go/channel/select/timer) from each document handler to ConsumeEvent; each document handler delivers (and counts) exactly once iff canForward && "
+      "!beforeSkipWindow && inSnapshot and branches on nothing else (any other predicate = undocumented filter); deliver->listener once with the received event "
+      "iff !closed; listener arm->forwarder once; forwarder->ConsumeEvent(payload) once iff !IsMetadata; skip-window predicate is strict SkipUntil.After; "
+      "collection name = configured entry | _default; wrappers embed the handler's own event copy with SeqNo/CollectionName/EventTime=Unix(Cas/1e9) from it; no "
+      "gocbcore event field is ever written; emitted types = listener arms + {SnapshotMarker, OSOSnapshot}. NOT decided: what gocbcore/the server deliver.",
+      "DESIGN.md §3 C03")
+
+claim("C06", "dominance rules on SSA + exhaustive order-abstraction evaluation of the membership check + module-wide immutability scan",
+      "Decides that each offset is one untorn resume point: delivery dominated by IsInSnapshotMarker(x)=true for the x that becomes Offset.SeqNo, snapshot and "
+      "vbUUID read from the observer inside that region; the check returns true iff snapshot!=nil && Start<=seq<=End and panics otherwise (never false) for all "
+      "inputs; snapshot markers/offsets are replaced, never mutated (module-wide store scan; every currentSnapshot assignment is a fresh literal from the event); "
+      "the branch id is written only by SetVbUUID under err==nil of an open-stream callback with failOverLogs[0].VbUUID; the document is built field by field "
+      "from one offset. NOT decided: well-formedness of the server's markers.", "DESIGN.md §3 C06")
+
+claim("C07", "exhaustive order-abstraction evaluation (gate, threshold, minimum over 0..4 copies, IsOutdated) + dominance rules on the observe callback",
+      "Decides the rollback-mitigation gate: every handler except End/OSOSnapshot calls canForward(own seqNo) before any other effect; canForward waits iff "
+      "mitigation is enabled and the wait loop exits only on checkPersistSeqNo=true; checkPersistSeqNo <=> seq<=persist || closed; SetPersistSeqNo leaves "
+      "max(old,new) ignoring 0 and is the only writer; getMinSeqNo = 0 if all copies absent, 0 on vbUUID disagreement, else the min of present copies - "
+      "exhaustively for 0..4 copies (18 577 abstract states; 5 in thorough); observe-callback state changes and dispatch dominated by !closed && same "
+      "generation && err==nil; IsOutdated exact; dispatch routed to observers[vbID]; close releases without delivering. NOT decided: polling latency, "
+      "OBSERVE_SEQNO itself.", "DESIGN.md §3 C07")
+
+claim("C08", "SSA argument tables + exhaustive order-abstraction evaluation of the failover scan (0..4 entries) and of the catch-up state machine",
+      "Decides how a rollback is honoured: OpenStream returns the rollback path's result under the DCPRollbackError test with failed<-offset.SeqNo, "
+      "rollback<-err.SeqNo, same end/vbID/observer/options; second request start=snapStart=snapEnd<-R, end<-latest; branch = vbUUID of the lowest-index "
+      "failover entry with SeqNo<=R (0 if none) for every ordering of 0..4 entries and R; SetVbUUID(failOverLogs[0].VbUUID)/SetCatchup(failed) under err==nil "
+      "only; catch-up filter skip <=> need && seq<=F, need' = need && seq<F, never consulted for control events. NOT decided: the server's R and log content.",
+      "DESIGN.md §3 C08")
